@@ -57,6 +57,11 @@ static void chaos_plan(Rng &rng, Plan &p, const std::string &prop) {
             }
             // stateful body parsers under faults: some requests carry a multipart/form-data body
             if (!conn_script && rng.chance(1, 4)) { size_t k = rng.below(s.req.size()); if (s.req[k].method != "HEAD" && s.req[k].method != "CONNECT" && s.res[k].interim.empty()) make_multipart_request(rng, s.req[k], rng.coin()); }
+            // hostile values for the fields the library parses beyond "name: value" (credentials, cookies, content type, host, framing)
+            if (!conn_script && rng.chance(1, 4)) {
+                for (auto &m : s.req) if (rng.chance(2, 3)) m.headers.insert(m.headers.begin() + (long) rng.below(m.headers.size() + 1), soup_header(rng, false));
+                for (auto &m : s.res) if (rng.chance(1, 4)) m.headers.insert(m.headers.begin() + (long) rng.below(m.headers.size() + 1), soup_header(rng, true));
+            }
             if (!conn_script) build_conn_from_script(rng, s, cp, false);
         } else {
             ordered = rng.coin();
@@ -179,6 +184,14 @@ static void chaos_plan(Rng &rng, Plan &p, const std::string &prop) {
             cf.action = ACT[rng.below(7)];
             p.cbs.push_back(cf);
         }
+    }
+    // a request-side-only close (and/or a full close) after all the traffic: the teardown calls then meet whatever state the
+    // faults above left behind (a stream stopped by a callback, a dangling transaction, a suspended direction)
+    if (rng.chance(1, 3)) {
+        int c = (int) rng.below((uint64_t) nconn);
+        { Op op; op.kind = 'c'; op.conn = c; p.ops.push_back(op); }
+        if (rng.coin()) { Op op; op.kind = 'C'; op.conn = c; p.ops.push_back(op); }
+        if (rng.chance(1, 4)) { Op op; op.kind = 'c'; op.conn = c; p.ops.push_back(op); }
     }
     if (rng.chance(1, 6)) { p.cfg.set("clock_mode", (long) rng.range(1, 4)); p.cfg.set("clock_every", (long) rng.range(1, 5)); p.cfg.set("clock_jump", (long) rng.range(1000, 5000000)); }
     if (p.cfg.get("extract_files", 0) && rng.chance(1, 3)) {
@@ -328,11 +341,12 @@ static const TxRec *tx_of_exchange(const RunResult &r, size_t conn, size_t i) {
 }
 
 // C02: everything the spec determines is reported exactly (keys without '@' are dump keys)
-static bool check_fidelity(const Plan &p, const RunResult &r, const char *pfx, std::string &oracle, std::string &detail) {
+static bool check_fidelity(const Plan &p, const RunResult &r, const char *pfx, std::string &oracle, std::string &detail, size_t only_first = (size_t) -1) {
     for (size_t c = 0; c < p.conns.size(); c++) {
         const ConnPlan &cp = p.conns[c];
-        if (r.conns[c].txs.size() != cp.xchg.size()) { oracle = std::string(pfx) + ".tx_count"; detail = strfmt("conn %zu: %zu exchanges sent, %zu transactions reported", c, cp.xchg.size(), r.conns[c].txs.size()); return false; }
-        for (size_t i = 0; i < cp.xchg.size(); i++) {
+        if (only_first != (size_t) -1) { if (r.conns[c].txs.size() < only_first) { oracle = std::string(pfx) + ".tx_count"; detail = strfmt("conn %zu: %zu transactions reported, at least %zu exchanges sent", c, r.conns[c].txs.size(), only_first); return false; } }
+        else if (r.conns[c].txs.size() != cp.xchg.size()) { oracle = std::string(pfx) + ".tx_count"; detail = strfmt("conn %zu: %zu exchanges sent, %zu transactions reported", c, cp.xchg.size(), r.conns[c].txs.size()); return false; }
+        for (size_t i = 0; i < cp.xchg.size() && i < only_first; i++) {
             const TxRec *t = tx_of_exchange(r, c, i);
             if (!t || !t->have_dump) { oracle = std::string(pfx) + ".tx_missing"; detail = strfmt("exchange %zu", i); return false; }
             for (auto &e : cp.xchg[i].expect) {
@@ -1253,8 +1267,45 @@ static void c18_plan(Rng &rng, Plan &p) {
     p.conns.resize(1);
     ConnPlan &cp = p.conns[0];
     std::vector<Op> ops;
-    int src = (int) rng.below(10);
-    if (src < 3) { conn_from_capture(rng, cp, ops, 0, true); }
+    int src = (int) rng.below(12);
+    if (src >= 10) {
+        // containers outgrowing their initial capacity (transaction list 16, header table 32, parameter / cookie tables,
+        // multipart part list 64, part header table 4, log list, piece builders): the growth allocation itself may fail
+        Script s; int kind = (int) rng.below(5);
+        auto simple_res = [&]() { MsgSpec r; r.is_request = false; r.status = 200; r.reason = "OK"; r.framing = FR_CL; HeaderSpec h; h.name = "Content-Length"; h.value = "0"; r.headers.push_back(h); return r; };
+        auto base_req = [&](const char *m, const std::string &t) { MsgSpec q; q.method = m; q.target = t; q.version = "HTTP/1.1"; HeaderSpec h; h.name = "Host"; h.value = "c18.example"; q.headers.push_back(h); return q; };
+        if (kind == 0) { int n = (int) rng.range(17, 36); for (int i = 0; i < n; i++) { s.req.push_back(base_req("GET", strfmt("/id%d/g", i))); s.res.push_back(simple_res()); } }
+        else if (kind == 1) {
+            MsgSpec q = base_req("GET", "/id0/g"); MsgSpec r = simple_res(); int n = (int) rng.range(33, 70);
+            for (int i = 0; i < n; i++) { HeaderSpec h; h.name = strfmt("X-H%d", i); h.value = "v"; q.headers.push_back(h); r.headers.push_back(h); }
+            if (rng.coin()) for (int i = 0; i < 20; i++) { HeaderSpec h; h.name = "X-Rep"; h.value = strfmt("v%d", i); q.headers.push_back(h); r.headers.push_back(h); }
+            s.req.push_back(q); s.res.push_back(r);
+        } else if (kind == 2) {
+            std::string qs, ck, body; int n = (int) rng.range(33, 80);
+            for (int i = 0; i < n; i++) { qs += strfmt("%sq%d=%d", i ? "&" : "", i, i); ck += strfmt("%sc%d=%d", i ? "; " : "", i, i); body += strfmt("%sb%d=%%4%d", i ? "&" : "", i, i % 10); }
+            MsgSpec q = base_req("POST", "/id0/g?" + qs); { HeaderSpec h; h.name = "Cookie"; h.value = ck; q.headers.push_back(h); }
+            { HeaderSpec h; h.name = "Content-Type"; h.value = "application/x-www-form-urlencoded"; q.headers.push_back(h); }
+            q.body = q.payload = body; q.framing = FR_CL; { HeaderSpec h; h.name = "Content-Length"; h.value = strfmt("%zu", body.size()); q.headers.push_back(h); }
+            s.req.push_back(q); s.res.push_back(simple_res());
+        } else if (kind == 3) {
+            int n = (int) rng.range(65, 80); std::string b = "Xb0undary", body;
+            for (int i = 0; i < n; i++) {
+                body += "--" + b + "\r\nContent-Disposition: form-data; name=\"p" + strfmt("%d", i) + "\"" + ((i % 5) == 4 ? strfmt("; filename=\"f%d\"", i) : std::string()) + "\r\n";
+                if ((i % 7) == 0) body += "Content-Type: text/plain\r\nX-A: 1\r\nX-B: 2\r\nX-C: 3\r\nX-D: 4\r\n";
+                body += "\r\nv" + strfmt("%d", i) + "\r\n";
+            }
+            body += "--" + b + "--\r\n";
+            MsgSpec q = base_req("POST", "/id0/g"); { HeaderSpec h; h.name = "Content-Type"; h.value = "multipart/form-data; boundary=" + b; q.headers.push_back(h); }
+            q.body = q.payload = body; q.framing = FR_CL; { HeaderSpec h; h.name = "Content-Length"; h.value = strfmt("%zu", body.size()); q.headers.push_back(h); }
+            s.req.push_back(q); s.res.push_back(simple_res());
+        } else {
+            // many log records on one connection (each request draws a few warnings), and long values assembled from pieces
+            int n = (int) rng.range(6, 14);
+            for (int i = 0; i < n; i++) { MsgSpec q = base_req("GET", strfmt("/id%d/g?x=%%zz", i)); q.headers[0].value = "bad host:x"; { HeaderSpec h; h.name = "Content-Length"; h.value = "abc"; q.headers.push_back(h); } { HeaderSpec h; h.name = "Content-Length"; h.value = "1x"; q.headers.push_back(h); } s.req.push_back(q); MsgSpec r = simple_res(); { HeaderSpec h; h.name = "Content-Length"; h.value = "0"; r.headers.push_back(h); } s.res.push_back(r); }
+        }
+        build_conn_from_script(rng, s, cp, false);
+    }
+    else if (src < 3) { conn_from_capture(rng, cp, ops, 0, true); }
     else if (src < 5) { connect_conn(rng, cp, 0); }
     else if (src < 7) {
         // compressed response, two layers or lzma now and then
@@ -1319,7 +1370,18 @@ static void eval_c18(const Plan &p, Verdict &v, Agg *agg) {
     bool thorough = getenv("VERIF_TIER") && !strcmp(getenv("VERIF_TIER"), "thorough");
     uint64_t step = 1; if (!thorough && K > 1200) step = (K + 1199) / 1200;
     std::set<uintptr_t> sites;
-    for (uint64_t k = 1; k <= K; k += step) {
+    // the k values tried: the even grid, plus (quick tier) every allocation that *grows* something - a realloc of a list, table,
+    // string or line buffer; those are few, their failure paths differ from a failed fresh allocation (the old block stays
+    // valid and owned), and a grid of 1200 points would hit a given one only by luck. At most 500 of them, evenly thinned.
+    std::vector<uint64_t> ks; for (uint64_t k = 1; k <= K; k += step) ks.push_back(k);
+    if (step > 1) {
+        std::vector<uint64_t> g; for (uint64_t k : base.realloc_ks) if (k >= 1 && k <= K && (k - 1) % step != 0) g.push_back(k);
+        size_t thin = g.size() > 500 ? (g.size() + 499) / 500 : 1;
+        for (size_t i = 0; i < g.size(); i += thin) ks.push_back(g[i]);
+        std::sort(ks.begin(), ks.end()); ks.erase(std::unique(ks.begin(), ks.end()), ks.end());
+        if (agg) agg->inc("c18.growth_reallocs_enumerated", (g.size() + thin - 1) / thin);
+    }
+    for (uint64_t k : ks) {
         if (g_progress_note) g_progress_note(k);
         Plan q = p; q.alloc_fail_at = (long) k;
         RunResult r; if (!c18_one(q, v, agg, r)) { if (agg) agg->inc("c18.failing_k"); return; }
@@ -1331,7 +1393,7 @@ static void eval_c18(const Plan &p, Verdict &v, Agg *agg) {
         }
     }
     if (g_progress_note) g_progress_note(0);
-    if (agg) { agg->inc("c18.histories"); agg->inc("c18.allocations_enumerated", K / step); for (uintptr_t s : sites) agg->c[strfmt("c18.site.0x%lx", (unsigned long) s)] += 1; }
+    if (agg) { agg->inc("c18.histories"); agg->inc("c18.allocations_enumerated", ks.size()); for (uintptr_t s : sites) agg->c[strfmt("c18.site.0x%lx", (unsigned long) s)] += 1; }
 }
 
 // ================================================================================================
@@ -1420,6 +1482,9 @@ static void c19_plan(Rng &rng, Plan &p) {
     p.cfg.kv.erase("disposal");
     if (rng.coin()) p.cfg.set("req_decomp", 1);
     p.cfg.set("res_decomp", 1);
+    // the decoders' limit paths (memory limit, bomb limit) are error paths that run with the shared configuration in hand
+    if (rng.chance(1, 3)) { static const long M[] = {1024, 4096, 65536}; p.cfg.set("lzma_memlimit", M[rng.below(3)]); }
+    if (rng.chance(1, 4)) { static const long B[] = {2048, 20000, 100000}; p.cfg.set("bomb_limit", B[rng.below(3)]); }
     int nconn = (int) rng.range(2, 8);
     p.conns.resize((size_t) nconn);
     std::vector<std::vector<Op>> per((size_t) nconn);
@@ -1429,10 +1494,16 @@ static void c19_plan(Rng &rng, Plan &p) {
         int src = (int) rng.below(10);
         if (src < 5) { Script s = random_script(rng, f, (int) rng.range(1, 5), 100 * c); build_conn_from_script(rng, s, cp, false); }
         else if (src < 6) { connect_conn(rng, cp, 100 * c); }
-        else if (src < 7) {   // compressed response: decompressor state is per connection
+        else if (src < 8) {   // compressed response: decompressor state is per connection
             Script s; MsgSpec q; q.method = "GET"; q.target = strfmt("/id%d/z", 100 * c); { HeaderSpec h; h.name = "Host"; h.value = "c19.example"; q.headers.push_back(h); }
             MsgSpec r; r.is_request = false; r.status = 200; r.reason = "OK"; Bytes payload; size_t n = (size_t) rng.range(1, 30000); for (size_t i = 0; i < n; i++) payload.push_back((char) ('a' + (i + (size_t) c) % 7));
-            r.body = z_encode(payload, 31, 6, 0); r.payload = payload; { HeaderSpec h; h.name = "Content-Encoding"; h.value = "gzip"; r.headers.push_back(h); } r.framing = FR_CL; { HeaderSpec h; h.name = "Content-Length"; h.value = strfmt("%zu", r.body.size()); r.headers.push_back(h); }
+            std::string cename = "gzip";
+            switch (rng.below(4)) {
+                case 0: r.body = z_encode(payload, 31, 6, 0); break;
+                case 1: r.body = z_encode(payload, rng.coin() ? -15 : 15, 6, 0); cename = "deflate"; break;
+                default: { static const uint32_t D[] = {4096, 1u << 16, 1u << 20, 1u << 22}; r.body = lzma_alone_encode(payload, D[rng.below(4)]); cename = "lzma"; break; }   // dictionary below / above the memory limit
+            }
+            r.payload = payload; { HeaderSpec h; h.name = "Content-Encoding"; h.value = cename; r.headers.push_back(h); } r.framing = FR_CL; { HeaderSpec h; h.name = "Content-Length"; h.value = strfmt("%zu", r.body.size()); r.headers.push_back(h); }
             s.req.push_back(q); s.res.push_back(r); build_conn_from_script(rng, s, cp, false);
         } else { std::vector<Op> dummy; conn_from_capture(rng, cp, dummy, c, false); if (rng.chance(1, 3)) mutate_stream(rng, cp.stream[rng.below(2)], 2); }
         for (auto &x : cp.xchg) x.expect.clear();
@@ -1624,11 +1695,12 @@ static Bytes tls_like(Rng &r, size_t n) {
     return b;
 }
 
-// kind: 0 refused/plain HTTP follows, 1 2xx + TLS-looking payload (tunnel), 2 101 upgrade (tunnel); -1 = random
+// kind: 0 refused/plain HTTP follows, 1 2xx + TLS-looking payload (tunnel), 2 101 upgrade (tunnel), 3 refused and the client
+// sends opaque bytes all the same (no tunnel exists: nothing may report TUNNEL); -1 = random
 Script connect_script_ex(Rng &r, int id_base, int kind, int &connect_idx, bool &expect_tunnel, Bytes &tunnel_req, Bytes &tunnel_res) {
     GenFeatures f; f.interim100 = false;
     Script s;
-    if (kind < 0) kind = (int) r.below(3);
+    if (kind < 0) kind = r.chance(1, 8) ? 3 : (int) r.below(3);
     int pre = (int) r.range(0, 2);
     if (pre) s = random_script(r, f, pre, id_base);
     for (auto &m : s.res) if (m.framing == FR_CLOSE) { m.framing = FR_CL; HeaderSpec cl; cl.name = "Content-Length"; cl.value = strfmt("%zu", m.body.size()); m.headers.push_back(cl); }
@@ -1650,8 +1722,8 @@ Script connect_script_ex(Rng &r, int id_base, int kind, int &connect_idx, bool &
         if (r.coin()) { HeaderSpec h; h.name = "Proxy-Connection"; h.value = "keep-alive"; q.headers.push_back(h); }
         q.xexpect.push_back(std::make_pair("@host.ci", Bytes("tunnel.example"))); q.xexpect.push_back(std::make_pair("req.port", Bytes("443")));   // authority-form target
         if (kind == 1) { static const int ST[] = {200, 200, 204, 299}; p.status = ST[r.below(4)]; p.reason = "Connection established"; expect_tunnel = true; }
-        else if (r.chance(1, 3)) { static const int ST[] = {200, 204}; p.status = ST[r.below(2)]; p.reason = "Connection established"; }   // tunnel carrying plain HTTP
-        else { static const int ST[] = {407, 403, 502, 400, 500, 302}; p.status = ST[r.below(6)]; p.reason = "Denied"; p.framing = FR_CL; p.body = p.payload = "denied"; HeaderSpec cl; cl.name = "Content-Length"; cl.value = "6"; p.headers.push_back(cl); }
+        else if (kind == 0 && r.chance(1, 3)) { static const int ST[] = {200, 204, 299}; p.status = ST[r.below(3)]; p.reason = "Connection established"; }   // tunnel carrying plain HTTP
+        else { static const int ST[] = {407, 403, 502, 400, 500, 302, 300, 301, 399, 599} /* incl. the neighbours of the 2xx range */; p.status = ST[r.below(10)]; p.reason = "Denied"; p.framing = FR_CL; p.body = p.payload = "denied"; HeaderSpec cl; cl.name = "Content-Length"; cl.value = "6"; p.headers.push_back(cl); }
         { HeaderSpec h; h.name = "X-Sim-Id"; h.value = strfmt("%d", id_base + pre); p.headers.push_back(h); }
     }
     s.req.push_back(q); s.res.push_back(p);
@@ -1659,6 +1731,8 @@ Script connect_script_ex(Rng &r, int id_base, int kind, int &connect_idx, bool &
     if (expect_tunnel) {
         if (r.chance(4, 5)) tunnel_req = tls_like(r, (size_t) r.range(5, 300));
         if (!tunnel_req.empty() && r.chance(4, 5)) tunnel_res = tls_like(r, (size_t) r.range(5, 300));
+    } else if (kind == 3) {
+        tunnel_req = tls_like(r, (size_t) r.range(5, 300));
     } else {
         int post = (int) r.range(0, 3);
         if (post) { Script t = random_script(r, f, post, id_base + pre + 1); for (auto &m : t.req) s.req.push_back(m); for (auto &m : t.res) s.res.push_back(m); }
@@ -1677,7 +1751,7 @@ static Script connect_conn(Rng &rng, ConnPlan &cp, int id_base) {
     int ci; bool tun; Bytes a, b;
     Script s = connect_script_ex(rng, id_base, -1, ci, tun, a, b);
     build_conn_from_script(rng, s, cp, false);
-    if (tun && (!a.empty() || !b.empty())) {
+    if (!a.empty() || !b.empty()) {
         Exchange x; x.req.a = (long) cp.stream[0].size(); cp.stream[0] += a; x.req.b = (long) cp.stream[0].size(); x.req_head_end = x.req.b;
         x.res.a = (long) cp.stream[1].size(); cp.stream[1] += b; x.res.b = (long) cp.stream[1].size(); x.res_head_end = x.res.b;
         cp.xchg.push_back(x);
@@ -1694,6 +1768,14 @@ static void c16_plan(Rng &rng, Plan &p) {
     build_conn_from_script(rng, s, p.conns[0], true);
     ConnPlan &cp = p.conns[0];
     p.cfg.set("c16_connect_idx", ci); p.cfg.set("c16_expect_tunnel", tun ? 1 : 0);
+    if (!tun && !treq.empty()) {
+        // refused, and the client sends its opaque bytes all the same (it did not wait for the answer, or ignores it): there is
+        // no tunnel, so no call may report TUNNEL; what the parser makes of the bytes is its lenient business
+        Exchange x; x.req.a = (long) cp.stream[0].size(); cp.stream[0] += treq; x.req.b = (long) cp.stream[0].size(); x.req_head_end = x.req.b;
+        x.res.a = x.res.b = x.res_head_end = (long) cp.stream[1].size();
+        cp.xchg.push_back(x);
+        p.cfg.set("c16_refused_junk", 1);
+    }
     if (tun && (!treq.empty() || !tres.empty())) {
         // the tunnel payload is a pseudo exchange: the client's bytes are offered before the server's (the client speaks first)
         Exchange x; x.req.a = (long) cp.stream[0].size(); cp.stream[0] += treq; x.req.b = (long) cp.stream[0].size(); x.req_head_end = x.req.b;
@@ -1765,6 +1847,7 @@ static bool check_c16(const Plan &p, const RunResult &r, std::string &oracle, st
     }
     // (iii) no tunnel: every exchange, before and after, is reported exactly; no request byte skipped or parsed twice
     if (tunnel_seen[0] || tunnel_seen[1]) { oracle = "C16.unexpected_tunnel"; detail = "CONNECT refused or tunnel carrying plain HTTP, yet a call reported TUNNEL"; return false; }
+    if (p.cfg.get("c16_refused_junk", 0)) return check_fidelity(p, r, "C16.before_junk", oracle, detail, ci + 1);
     if (!check_fidelity(p, r, "C16.after_connect", oracle, detail)) return false;
     if (!check_bodies(p, r, oracle, detail)) { oracle = "C16." + oracle; return false; }
     return true;
